@@ -107,6 +107,18 @@ def context_schema():
     return Schema({"nodes": nodes, "marks": {k: dict(v) for k, v in basic_schema.spec["marks"].items()}})
 
 
+def fill_schema():
+    """content expressions that need filling at `finish` (a section starts with a heading, a row has exactly two cells)
+    and wrappers found through several levels"""
+    nodes = {k: dict(v) for k, v in basic_schema.spec["nodes"].items()}
+    nodes["doc"] = {"content": "section+"}
+    nodes["section"] = {"content": "heading block*", "parseDOM": [{"tag": "section"}], "toDOM": lambda _: ["section", 0]}
+    nodes["table"] = {"content": "row+", "group": "block", "parseDOM": [{"tag": "table"}], "toDOM": lambda _: ["table", 0]}
+    nodes["row"] = {"content": "cell{2}", "parseDOM": [{"tag": "tr"}], "toDOM": lambda _: ["tr", 0]}
+    nodes["cell"] = {"content": "block+", "parseDOM": [{"tag": "td"}], "toDOM": lambda _: ["td", 0]}
+    return Schema({"nodes": nodes, "marks": {k: dict(v) for k, v in basic_schema.spec["marks"].items()}})
+
+
 def whitespace_normal(doc):
     """text that HTML whitespace collapsing leaves alone: outside code blocks no tab/newline, no double space, and no
     space at the start or end of a textblock or next to a hard break / block boundary"""
@@ -428,6 +440,13 @@ def run(ctx):
     parse_schemas = [("basic", basic_schema), ("list", list_schema), ("context", cschema)]
     parsers = {name: DOMParser.from_schema(s) for name, s in parse_schemas}
     infos = {"basic": schemas.by_name("basic"), "list": schemas.by_name("list"), "context": codec.SchemaInfo(cschema, "context")}
+    # further schemas for the import checks (validity oracle + placement tie): family variants with parse rules and a
+    # schema whose content expressions need filling
+    extra_schemas = [(n, schemas.by_name(n).schema) for n in ("title", "heading-body", "iso", "marks-on-doc", "marks-x")]
+    extra_schemas.append(("fill", fill_schema()))
+    for n, sch in extra_schemas:
+        infos[n] = schemas.by_name(n) if n != "fill" else codec.SchemaInfo(sch, "fill")
+        parsers[n] = DOMParser.from_schema(sch)
     preqs, pmetas = [], []
     cinfo = infos["context"]
     ctx.guard(lambda: context_tie(ctx, [schemas.by_name("basic"), schemas.by_name("list"), cinfo, schemas.by_name("table"),
@@ -436,7 +455,7 @@ def run(ctx):
     for _ in range(ctx.budget(250, 2500)):
         if ctx.time_left() < 0:
             break
-        name, schema = rng.choice(parse_schemas)
+        name, schema = rng.choice(parse_schemas) if rng.random() < 0.65 else rng.choice(extra_schemas)
         html = gen_html(rng)
         replay = {"schema": name, "html": html}
         ctx.case(["parse", name, html], nontrivial=bool(html.strip()), sample={"op": "from_html", "schema": name, "html": html[:200]})
